@@ -2,9 +2,14 @@
 
 spec -> code : FrameMC.tla enumerates the catalogue of Frame.tla (one record per public
                array-taking entry point of the families the property lists) x dimensionality x
-               option x layout assignment.  Every exported invocation is executed on the real
-               function with each argument built in exactly that layout (byte order, contiguity,
-               element kind, 0-d..2-d).
+               option x (layout assignment, value-class assignment).  Every exported invocation is
+               executed on the real function with each argument built in exactly that layout (byte
+               order, contiguity, element kind, 0-d..2-d) and holding values of exactly that class
+               (ordinary / NaN / +-inf / zeros / negative / all equal / duplicates / extreme magnitude /
+               empty; the special elements at the same positions in every argument, so that e.g.
+               (data: nan, weights: zero) is "NaN exactly where the weight is zero").  The value classes
+               drive the data-dependent branches of a callee (clipping, masking, wrapping, sentinel
+               replacement, sorting, weight normalisation).
 code -> spec : every argument is snapshotted before and after the call (digest of its bytes, digest
                of the whole buffer it lives in, dtype incl. byte order, flags + strides + shape);
                the recorded invocations are judged by FrameTrace.tla: whatever the call returned
@@ -34,6 +39,7 @@ ALL_FAMILIES = ["recfile", "fields", "byteorder", "match", "hist", "stats", "coo
 # ---- logical values by role (float kinds, integer kinds) ------------------------------------
 ROLE_VALUES = {
     "lon":       ([10.5, 200.25, 250.0, 45.0, 180.0, 90.75], [10, 200, 250, 45, 180, 90]),
+    "dlon":      ([10.5, 200.25, -250.0, 45.0, 180.0, -190.75], [10, 200, -250, 45, 180, -190]),
     "lat":       ([5.5, -30.25, 60.0, 45.0, -10.0, 80.5], [5, 30, 60, 45, 10, 80]),
     "data":      ([1.5, 2.5, 0.5, 3.5, 2.0, 1.0], [1, 2, 0, 3, 2, 1]),
     "weight":    ([1.0, 2.0, 1.0, 4.0, 2.0, 0.5], [1, 2, 1, 4, 2, 1]),
@@ -73,8 +79,79 @@ TABLE2_DESCR = [("q", "f8"), ("w", "i4"), ("t", "S2")]
 SHAPES = {0: (), 1: (6,), 2: (2, 3)}
 
 
-def logical(role, kind, nd):
-    """native, C-contiguous array holding valid values for the role"""
+# ---- value classes (Frame.tla FrVals): the special elements sit at flat positions 2 and 4 of every
+# parameter (position 0 of a one-element argument), so that two classes in one call coincide element by element
+_EXT = {"f8": (1e300, -1e300), "f4": (3e38, -3e38), "i8": (2 ** 62, -2 ** 62), "i2": (32767, -32768), "u1": (255, 255)}
+
+
+def _inject(a, val):
+    """a: native 1-d array (rows) of a simple dtype or one field of a table; modified in place"""
+    n = a.shape[0]
+    pos = [q for q in (2, 4) if q < n] or [0]
+    k = a.dtype.kind
+    code = "%s%d" % (k, a.dtype.itemsize)
+    if val == "equal":
+        a[...] = a[0].copy()
+    elif val == "dup":
+        if n > 2:
+            a[2] = a[0]
+        if n > 4:
+            a[4] = a[1]
+    elif k == "S":
+        if val == "zero":
+            a[pos] = b""
+        elif val == "ext":
+            a[pos] = b"\xff,\t\xff"[:a.dtype.itemsize]
+    elif val == "nan":
+        if k == "f":
+            a[pos] = np.nan
+    elif val == "inf":
+        if k == "f":
+            a[pos[0]] = np.inf
+            a[pos[-1]] = -np.inf if len(pos) > 1 else np.inf
+    elif val == "zero":
+        a[pos] = 0
+    elif val == "neg":
+        if k in "fi":
+            a[pos] = -(np.abs(a[pos]) + 1)
+    elif val == "ext":
+        if code == "i4":
+            # every element next to the largest value (large offset, small scatter): two int32 extremes of
+            # opposite sign would ask the histogram functions for 2**32 bins of 8 bytes
+            a[...] = (2 ** 31 - 1) - np.abs(a)
+        else:
+            hi, lo = _EXT[code]
+            a[pos[0]] = hi
+            a[pos[-1]] = lo if len(pos) > 1 else hi
+    elif val not in ("ord", "empty"):
+        raise MachineryError("unknown value class %r" % val)
+
+
+def with_values(a, val):
+    """the logical (native, C-contiguous) array a with its values changed to the class val"""
+    if val == "ord":
+        return a
+    if val == "empty":
+        if a.ndim != 1:
+            raise MachineryError("empty arguments are 1-d")
+        return a[:0].copy()
+    shape = a.shape
+    rows = a.reshape(-1).copy()
+    if a.dtype.names is None:
+        _inject(rows, val)
+    else:
+        for nm in a.dtype.names:
+            f = rows[nm]                      # a view of the field: (n,) or (n, 2)
+            _inject(f, val)
+    return rows.reshape(shape)
+
+
+def logical(role, kind, nd, val="ord"):
+    """native, C-contiguous array holding values of class val for the role"""
+    return with_values(_logical(role, kind, nd), val)
+
+
+def _logical(role, kind, nd):
     shape = SHAPES[nd]
     n = int(np.prod(shape, dtype=int)) if shape else 1
     if role in ("table", "table_target", "table2"):
@@ -95,6 +172,8 @@ def logical(role, kind, nd):
         return np.array(vals[:n], dtype="S2").reshape(shape)
     fl, it = ROLE_VALUES[role]
     vals = fl if (kind in ("f8", "f4") or it is None) else it
+    if kind == "u1":
+        vals = [abs(int(v)) for v in vals]
     return np.array(vals[:n], dtype=kind).reshape(shape)
 
 
@@ -179,6 +258,7 @@ def _cosmo(curved):
 
 _HTM = {}
 BINCOUNT_DEPTH = 6
+MATCH_DEPTH = 7
 
 
 def _htm(depth=10):
@@ -201,6 +281,9 @@ def bind(name, opt, A, tmp):
 
     # ---- record files ----------------------------------------------------------------------
     delims = {"csv": ",", "tab": "\t", "space": " ", "colon": ":"}
+    if name == "io.write_rec":
+        kw = {"delim": delims[opt]} if opt in delims else {}
+        return lambda: esutil.io.write_rec(fam_path, A["data"], **kw)
     if name in ("sfile.write", "io.write"):
         o = opt[4:] if name == "io.write" else opt
         parts = o.split("_")
@@ -279,12 +362,17 @@ def bind(name, opt, A, tmp):
         return (lambda: nu.combine_fields([A["arr1"], A["arr2"]])) if opt == "two" else (lambda: nu.combine_fields([A["arr1"]]))
     if name == "numpy_util.copy_fields":
         return lambda: nu.copy_fields(A["arr1"], A["arr2"])
-    if name == "numpy_util.split_fields":
+    if name in ("numpy_util.split_fields", "sfile.split_fields", "recfile.split_fields"):
+        fn = {"numpy_util": nu.split_fields, "sfile": sfile.split_fields, "recfile": recfile.Util.split_fields}[name.split(".")[0]]
         if opt == "all":
-            return lambda: nu.split_fields(A["data"])
+            return lambda: fn(A["data"])
         if opt == "some":
-            return lambda: nu.split_fields(A["data"], fields=["x", "v"])
-        return lambda: nu.split_fields(A["data"], fields=["s"], getnames=True)
+            return lambda: fn(A["data"], fields=["x", "v"])
+        return lambda: fn(A["data"], fields=["s"], getnames=True)
+    if name == "numpy_util.copy_fields_by_name":
+        if opt == "one":
+            return lambda: nu.copy_fields_by_name(A["arr"], "x", [A["vals"]])
+        return lambda: nu.copy_fields_by_name(A["arr"], ["f", "n"], [A["vals"], A["vals"]])
     if name == "numpy_util.combine_arrlist":
         return lambda: nu.combine_arrlist([A["arr1"], A["arr2"]], keep=(opt == "keep"))
 
@@ -302,6 +390,8 @@ def bind(name, opt, A, tmp):
         return lambda: nu.match_multi(A["arr1"], A["arr2"])
     if name == "numpy_util.unique":
         return lambda: nu.unique(A["arr"], values=(opt == "values"))
+    if name == "numpy_util.strmatch":
+        return lambda: nu.strmatch(A["arr"], b"c.*" if opt == "prefix" else b".*")
     if name == "numpy_util.rem_dup":
         return lambda: nu.rem_dup(A["arr"], A["flag"], values=(opt == "values"))
 
@@ -336,8 +426,13 @@ def bind(name, opt, A, tmp):
         kw = {"default": {}, "get_err": dict(get_err=True), "get_indices": dict(get_indices=True), "tight": dict(nsig=1.0, niter=3)}[opt]
         return lambda: stat.sigma_clip(A["arr"], weights=A.get("weights"), silent=True, **kw)
     if name.startswith("stat.get_stats"):
-        kw = {"default": {}, "nsig": dict(nsig=2.0)}[opt]
+        kw = {"default": {}, "nsig": dict(nsig=2.0), "doprint": dict(doprint=True)}[opt]
         return lambda: stat.get_stats(A["arr"], weights=A.get("weights"), **kw)
+    if name.startswith("stat.print_stats"):
+        kw = {"default": {}, "nsig": dict(nsig=2.0)}[opt]
+        if "weights" in A:
+            kw["weights"] = A["weights"]
+        return lambda: stat.print_stats(A["arr"], **kw)
     if name == "stat.interplin":
         return lambda: stat.interplin(A["v"], A["x"], A["u"])
     if name == "stat.cov2cor":
@@ -374,6 +469,8 @@ def bind(name, opt, A, tmp):
         return lambda: fn(A["lon"] if "lon" in A else A["ra"], **kw)
     if name == "coords.radec2aitoff":
         return lambda: coords.radec2aitoff(A["ra"], A["dec"])
+    if name == "coords.rect_area":
+        return lambda: coords.rect_area(A["lon_min"], A["lon_max"], A["lat_min"], A["lat_max"])
     if name == "coords.rotate":
         return lambda: coords.rotate(10.0, 20.0, 30.0, A["ra"], A["dec"])
 
@@ -387,6 +484,24 @@ def bind(name, opt, A, tmp):
     if name == "WCS.get_jacobian":
         w = _wcs(opt.split("_")[0])
         return lambda: w.get_jacobian(A["x"], A["y"], distort=("nodistort" not in opt))
+
+    if name in ("WCS.image2sph", "WCS.sph2image"):
+        w = _wcs(opt)
+        if name == "WCS.image2sph":
+            return lambda: w.image2sph(A["x"], A["y"])
+        return lambda: w.sph2image(A["longitude"], A["latitude"])
+    if name == "WCS.Rotate":
+        w = _wcs("tan")
+        return lambda: w.Rotate(A["lon"], A["lat"], reverse=(opt == "reverse"))
+    if name == "WCS.ApplyCDMatrix":
+        w = _wcs("tan")
+        return lambda: w.ApplyCDMatrix(A["x"], A["y"], inverse=(opt == "inverse"))
+    if name == "WCS.Distort":
+        w = _wcs(opt.split("_")[0])
+        return lambda: w.Distort(A["x"], A["y"], inverse=("inverse" in opt))
+    if name == "wcsutil.wrap_ra_diff":
+        from esutil import wcsutil
+        return lambda: wcsutil.wrap_ra_diff(A["dra"])
 
     # ---- cosmology ----------------------------------------------------------------------------------------------
     if name.startswith("Cosmo."):
@@ -406,14 +521,16 @@ def bind(name, opt, A, tmp):
         h = _htm(10 if opt == "depth10" else 4)
         return lambda: h.lookup_id(A["ra"], A["dec"])
     if name in ("HTM.match", "Matcher.match"):
+        # depth 7 (triangles of ~0.7 degree) for the 0.25 - 1 degree search radii: the argument handling is that of any
+        # depth; at depth 10 each search circle covers hundreds of triangles (90 ms per invocation)
         kw = {"maxmatch1": {}, "maxmatch0": dict(maxmatch=0), "file": dict(file=os.path.join(tmp, "pairs.dat")), "radius_scalar": {}}[opt]
         if name == "HTM.match":
             rad = (lambda: _scalar(A["radius"])) if opt == "radius_scalar" else (lambda: A["radius"])
-            return lambda: _htm().match(A["ra1"], A["dec1"], A["ra2"], A["dec2"], rad(), **kw)
-        m = esutil.htm.Matcher(10, np.array(ROLE_VALUES["lon"][0]), np.array(ROLE_VALUES["lat"][0]))
+            return lambda: _htm(MATCH_DEPTH).match(A["ra1"], A["dec1"], A["ra2"], A["dec2"], rad(), **kw)
+        m = esutil.htm.Matcher(MATCH_DEPTH, np.array(ROLE_VALUES["lon"][0]), np.array(ROLE_VALUES["lat"][0]))
         return lambda: m.match(A["ra"], A["dec"], A["radius"], **kw)
     if name == "Matcher()":
-        return lambda: esutil.htm.Matcher(10, A["ra"], A["dec"])
+        return lambda: esutil.htm.Matcher(MATCH_DEPTH, A["ra"], A["dec"])
     if name.startswith("HTM.bincount"):
         kw = {"default": {}, "scale_scalar": dict(scale=2.0), "nobins": dict(getbins=False)}[opt]
         if "scale" in A:
@@ -424,7 +541,7 @@ def bind(name, opt, A, tmp):
         # (depth 10 with 10 degrees took 1.5 - 4 s per invocation); the argument handling is the same
         return lambda: _htm(BINCOUNT_DEPTH).bincount(0.01, 1.0, 3, A["ra1"], A["dec1"], A["ra2"], A["dec2"], **kw)
     if name == "HTM.cylmatch":
-        return lambda: _htm().cylmatch(A["ra1"], A["dec1"], A["z1"], A["ra2"], A["dec2"], A["z2"], A["radius"], A["dz"],
+        return lambda: _htm(MATCH_DEPTH).cylmatch(A["ra1"], A["dec1"], A["z1"], A["ra2"], A["dec2"], A["z2"], A["radius"], A["dz"],
                                        unique=(opt == "unique"))
     raise MachineryError("no binding for catalogue entry %r" % name)
 
@@ -439,14 +556,41 @@ def build_args(case):
             ids = _htm(BINCOUNT_DEPTH).lookup_id(np.array(ROLE_VALUES["lon"][0]), np.array(ROLE_VALUES["lat"][0]))
             base = ids.astype(kind).reshape(SHAPES[nd])
         elif kind == "tbl" and prm["role"] not in ("table", "table2", "table_target"):
-            base = logical("table", "tbl", nd)           # byte-order conversion of a table
+            base = logical("table", "tbl", nd, prm.get("val", "ord"))           # byte-order conversion of a table
         else:
-            base = logical(prm["role"], kind, nd)
+            base = logical(prm["role"], kind, nd, prm.get("val", "ord"))
         A[prm["p"]] = apply_layout(base, lay)
     return A
 
 
 _TMP = None
+AS_LIMIT = 12 << 30     # address-space cap while a catalogue call runs: an absurd allocation (a histogram of an astronomically
+                        # wide range) must fail as MemoryError in the callee instead of exhausting the machine
+
+
+CALL_TIMEOUT = 120      # seconds; a catalogue call that does not come back is a failure of the machinery (the catalogue
+                        # offers a callee only the value classes it accepts), never a verdict
+
+
+def _hung(*_):
+    raise MachineryError("a catalogue call did not return within %d s" % CALL_TIMEOUT)
+
+
+@contextlib.contextmanager
+def _capped():
+    import resource
+    import signal
+    soft, hard = resource.getrlimit(resource.RLIMIT_AS)
+    cap = AS_LIMIT if hard == resource.RLIM_INFINITY else min(AS_LIMIT, hard)
+    resource.setrlimit(resource.RLIMIT_AS, (cap, hard))
+    old = signal.signal(signal.SIGALRM, _hung)
+    signal.alarm(CALL_TIMEOUT)
+    try:
+        yield
+    finally:
+        signal.alarm(0)
+        signal.signal(signal.SIGALRM, old)
+        resource.setrlimit(resource.RLIMIT_AS, (soft, hard))
 
 
 def run_case(args):
@@ -463,14 +607,17 @@ def run_case(args):
             warnings.simplefilter("ignore")
             with np.errstate(all="ignore"), contextlib.redirect_stdout(io.StringIO()), contextlib.redirect_stderr(io.StringIO()):
                 try:
-                    thunk()
+                    with _capped():
+                        thunk()
+                except MachineryError:
+                    raise
                 except Exception as e:  # noqa   exceptions are fine - the frame condition still applies
                     outcome, err = "raised", "%s: %s" % (type(e).__name__, str(e)[:80])
         post = [snapshot(A[p]) for p in order]
     finally:
         shutil.rmtree(tmp, ignore_errors=True)
     return {"id": rid, "call": case["call"], "opt": case["opt"], "nd": case["nd"], "lay": [p["lay"] for p in case["params"]],
-            "outcome": outcome, "err": err, "pre": pre, "post": post, "pnames": order}
+            "val": [p.get("val", "ord") for p in case["params"]], "outcome": outcome, "err": err, "pre": pre, "post": post, "pnames": order}
 
 
 # ---- judging -----------------------------------------------------------------------------------------
@@ -480,7 +627,7 @@ def layout_class(lay):
 
 def judge(ctx, recs, cases, what):
     rejects = tracecheck.validate(ctx, "FrameTrace.tla",
-                                  [{k: r[k] for k in ("id", "call", "opt", "nd", "lay", "outcome", "pre", "post")} for r in recs], what=what)
+                                  [{k: r[k] for k in ("id", "call", "opt", "nd", "lay", "val", "outcome", "pre", "post")} for r in recs], what=what)
     byid = {r["id"]: r for r in recs}
     for rid in sorted(rejects):
         r = byid[rid]
@@ -488,18 +635,19 @@ def judge(ctx, recs, cases, what):
             i, whatch = item.split(":", 1)
             i = int(i)
             if whatch == "not_in_catalogue":
-                raise MachineryError("recorded invocation is not a point of the catalogue: %s" % {k: r[k] for k in ("call", "opt", "nd", "lay")})
+                raise MachineryError("recorded invocation is not a point of the catalogue: %s" % {k: r[k] for k in ("call", "opt", "nd", "lay", "val")})
             pname = r["pnames"][i - 1]
             ctx.violation("%s|%s|%s|%s" % (r["call"], pname, whatch, layout_class(r["lay"][i - 1])),
-                          "%s (option %s) changed the %s of its argument %r (layout %s, %d-d; call %s%s)"
-                          % (r["call"], r["opt"], whatch, pname, r["lay"][i - 1], r["nd"], r["outcome"], " " + r["err"] if r["err"] else ""),
+                          "%s (option %s) changed the %s of its argument %r (layout %s, %d-d, value classes of the arguments %s; call %s%s)"
+                          % (r["call"], r["opt"], whatch, pname, r["lay"][i - 1], r["nd"], dict(zip(r["pnames"], r["val"])), r["outcome"],
+                             " " + r["err"] if r["err"] else ""),
                           {"kind": "invocation", "case": cases[rid], "changed": whatch, "param": pname})
     return rejects
 
 
 BOUNDS = {
-    "quick":    dict(NDims={0, 1, 2}, Pairwise=False),
-    "thorough": dict(NDims={0, 1, 2}, Pairwise=True),
+    "quick":    dict(NDims={0, 1, 2}, Pairwise=False, ValNDims={1}),
+    "thorough": dict(NDims={0, 1, 2}, Pairwise=True, ValNDims={0, 1, 2}),
 }
 
 
@@ -507,7 +655,8 @@ def run(ctx):
     global _TMP
     B = BOUNDS[ctx.tier]
     fams = set(ALL_FAMILIES)
-    consts = dict(Families=fams, NDims=B["NDims"], Pairwise=B["Pairwise"], FixedTextWrite=True, DoExport=False)
+    consts = dict(Families=fams, NDims=B["NDims"], Pairwise=B["Pairwise"], ValNDims=B["ValNDims"], FixedTextWrite=True, FixedWrap=True,
+                  DoExport=False)
     # 1. the model: frame condition as invariant + action property, catalogue well-formed, mechanism paths refine Invoke
     ctx.tlc("FrameMC.tla", what="frame condition + argument-path mechanism refines Invoke (exhaustive)",
             cfg_text=cfg(constants=consts, invariants=["FrameHolds", "MechRefines", "CatalogueOK", "LayoutsOK"], properties=["FrameAction"]),
@@ -518,6 +667,12 @@ def run(ctx):
                               invariants=["MechRefines"]), workers=4, allow_violation=True, coverage=False)
     if "MechRefines" not in rb.violated:
         raise MachineryError("self-test failed: MechRefines not violated by the deviating mechanism")
+    # 1c. the same for a data-dependent write: wrapping out-of-range values into the caller's array
+    rb = ctx.tlc("FrameMC.tla", what="self-test: wrapping values by assignment into the argument violates MechRefines",
+                 cfg_text=cfg(constants=dict(consts, Families={"wcs"}, NDims={1}, Pairwise=False, FixedWrap=False),
+                              invariants=["MechRefines"]), workers=4, allow_violation=True, coverage=False)
+    if "MechRefines" not in rb.violated:
+        raise MachineryError("self-test failed: MechRefines not violated by the data-dependent in-place write")
     # 2. export catalogue x layouts x options (spec -> code)
     r = ctx.tlc("FrameMC.tla", what="export invocations", cfg_text=cfg(constants=dict(consts, DoExport=True), next_="NextExport",
                                                                          constraints=["Export"]), workers=1, coverage=False, timeout=3000)
@@ -545,9 +700,9 @@ def run(ctx):
         raise MachineryError("catalogue entries that never completed normally (binding wrong?): %s" %
                              [(k, completed[k][2]) for k in never])
     for rec in recs:
-        ctx.count({"call": rec["call"], "opt": rec["opt"], "nd": rec["nd"], "lay": rec["lay"]})
+        ctx.count({"call": rec["call"], "opt": rec["opt"], "nd": rec["nd"], "lay": rec["lay"], "val": rec["val"]})
     for rec in recs[:: max(1, len(recs) // 4)][:4]:
-        ctx.sample({"call": rec["call"], "opt": rec["opt"], "nd": rec["nd"], "layouts": rec["lay"], "outcome": rec["outcome"],
+        ctx.sample({"call": rec["call"], "opt": rec["opt"], "nd": rec["nd"], "layouts": rec["lay"], "values": rec["val"], "outcome": rec["outcome"],
                     "before": rec["pre"], "after": rec["post"]})
     chunk = 40000
     rejected = set()
@@ -558,25 +713,35 @@ def run(ctx):
     nraised = sum(1 for rec in recs if rec["outcome"] == "raised")
     ctx.rule = ("every invocation exported from FrameMC.tla: %d catalogue entries x admissible dimensionalities %s x option values x "
                 "layout assignments (every admissible [order, contiguity, kind] of one parameter with the others in base layout; one "
-                "order/contiguity for all parameters%s); each argument built in that layout and snapshotted before/after; an "
-                "invocation is distinct by (call, option, ndim, layouts) and non-trivial always (%d of %d raised, the frame condition "
-                "applies to them too)" % (len(completed), sorted(B["NDims"]), "; every order/contiguity pair for two parameters" if B["Pairwise"] else "",
-                                           nraised, len(recs)))
+                "order/contiguity for all parameters%s) with ordinary values, plus value-class assignments in %s-d (classes nan, inf, zero, "
+                "neg, equal, dup, ext, empty as far as the role and element kind admit them: %s); each argument built in that layout with "
+                "such values and snapshotted before/after; an invocation is distinct by (call, option, ndim, layouts, value classes) and "
+                "non-trivial always (%d of %d raised, the frame condition applies to them too)"
+                % (len(completed), sorted(B["NDims"]), "; every order/contiguity pair for two parameters" if B["Pairwise"] else "",
+                   sorted(B["ValNDims"]),
+                   "each class of one parameter in every order x contiguity and in every element kind, the same class in all parameters, every "
+                   "pair of classes for two parameters" if B["Pairwise"] else
+                   "each class of one parameter in its base layout, the same class in all parameters, NaN/inf against zero/negative and NaN "
+                   "against inf for every two parameters",
+                   nraised, len(recs)))
     ctx.exhaustive = True
     ctx.note(invocations=len(recs), raised=nraised, catalogue_entries=len(completed),
+             invocations_with_special_values=sum(1 for rec in recs if any(v != "ord" for v in rec["val"])),
              per_call={k: {"returned": v[0], "raised": v[1]} for k, v in sorted(completed.items())})
     ctx.assumptions = [
         "the catalogue (Frame.tla FrCalls) is the set of public array-taking entry points of the families the statement lists; undocumented in-place helpers (coords.atbound/atbound2, numpy_util.copy_fields_by_name's target) are not claimed",
         "arguments documented as written (copy_fields' second array) are marked mut and exempt",
         "reversed views are taken from the first half of a twice-as-large buffer so that C code that ignores strides cannot read outside it",
         "parameters handed to C code without any conversion (HTM.bincount htmrev2) are not varied",
+        "value classes are offered to a role only where the callee accepts them: search radii, dz and scale factors are never NaN, infinite, negative or of extreme magnitude (a pair search over the whole mesh), a right-ascension difference handed to wrap_ra_diff is not of extreme magnitude (it is wrapped 360 degrees at a time and 1e300 never gets there), NaN/inf need a floating kind, negative values a signed one; int32 'extreme' data are all next to 2**31 rather than of both signs (a unit-bin histogram of the full int32 range would need 2**32 bins)",
+        "while a catalogue call runs the address space is capped at 12 GiB and a 120 s alarm is armed: an absurd allocation ends as MemoryError in the callee (an accepted outcome), a call that never returns as a machinery error",
     ]
 
 
 def selftest(ctx, good):
     import copy
     base = next(r for r in good if len(r["pre"]) >= 2)
-    keys = ("id", "call", "opt", "nd", "lay", "outcome", "pre", "post")
+    keys = ("id", "call", "opt", "nd", "lay", "val", "outcome", "pre", "post")
     a = copy.deepcopy({k: base[k] for k in keys}); a["id"] = 1; a["post"][1]["data"] = "0" * 12
     b = copy.deepcopy({k: base[k] for k in keys}); b["id"] = 2; b["post"][0]["dtype"] = ">f8|swapped"
     c = copy.deepcopy({k: base[k] for k in keys}); c["id"] = 3; c["post"][0]["flags"] = "C0F0W1A1O0|(-8,)|(6,)"
@@ -601,7 +766,7 @@ def selftest(ctx, good):
     finally:
         shutil.rmtree(_TMP, ignore_errors=True)
     rec = {"id": 1, "call": case["call"], "opt": case["opt"], "nd": 1, "lay": [p["lay"] for p in case["params"]],
-           "outcome": "returned", "pre": pre, "post": post}
+           "val": ["ord", "ord"], "outcome": "returned", "pre": pre, "post": post}
     saved = ctx.traces
     rej = tracecheck.validate(ctx, "FrameTrace.tla", [rec], what="self-test: flipped base-buffer byte rejected", workers=1)
     ctx.traces = saved
